@@ -1,6 +1,9 @@
 import PdtVerif.Lemmas.CtcAlign
 import PdtVerif.Lemmas.CtcPrefix
 import PdtVerif.Lemmas.CtcRefine
+import PdtVerif.Lemmas.CtcTopK
+import PdtVerif.Lemmas.CtcModule
+import PdtVerif.Lemmas.CtcFusion
 /-!
 # C05 — CTC prefix search reports true prefix mass, never more, never NaN
 
@@ -374,99 +377,101 @@ theorem C05_refines {V : Nat} (hV : 0 < V) (width : Nat) (frames : List FrameIn)
         (runAll V width initState frames) :=
   rep_run hV width frames fs initState Ctc.beamInit (wf_init V) rep_init hg
 
-/-- **C05_array_sub**: what `CTCPrefixSearch` (repaired) reports.  For an element with `T ≥ 1`
-valid frames: every slot `k` whose reported probability is a number `q` (not `-inf`) holds a
-blank-free prefix, different from the prefix of every other such slot, and
-`0 ≤ q ≤` the true mass of that prefix (the sum over all alignments collapsing to it);
+/-- **C05_topk_link**: the model's executable `isTopK` (a legitimate `torch.topk` answer on the array
+of candidate totals) gives the specification-level `IsTopK` used by `C05_shape`: on a well-formed
+state standing for the map `bm`, the prefixes of the real output slots of a step are a legitimate
+choice of the best `width` candidate prefixes of `bm` — distinct, all candidates, as many as the width
+and the number of distinct candidates allow, listed by non-increasing candidate mass, and no dropped
+candidate beats a kept one. -/
+theorem C05_topk_link {V : Nat} (hV : 0 < V) (width : Nat) (hw : 0 < width) {f : Ctc.Frame}
+    {ext : List (List XR)} {nonext : List XR} {blank : XR} {st : State} (h : WF V st)
+    (hf : FrameLink V f ext nonext blank st) {bm : Ctc.Beam} (hr : Rep bm st) (s : List Nat)
+    (hk : isTopK (advance true V width ext nonext blank st (some s)).cand
+            (min width (st.nb.length * (V + 1))) s = true)
+    (hext : ∀ r ∈ ext, ∀ x ∈ r, x.isFin = true) (hne : ∀ x ∈ nonext, x.isFin = true) :
+    Ctc.IsTopK V f width bm (validPrefixes (advance true V width ext nonext blank st (some s)).st) :=
+  isTopK_to_spec hV width hw h hf hr s hk hext hne
+
+/-- **C05_valid_run**: a good run of the array code (legitimate `topk` answers on the candidate
+totals) is a `ValidRun` of the map recursion: the survivors `keepsOf` are, at every frame, a
+legitimate best-`width` choice.  So `C05_shape` applies to the map the array code stands for, and
+"the prefix-beam recursion with the array code's survivors" IS the standard prefix-beam recursion of
+that width (up to the tie-breaking `topk` is free to do). -/
+theorem C05_valid_run {V : Nat} (hV : 0 < V) (width : Nat) (hw : 0 < width) (frames : List FrameIn)
+    (fs : List Ctc.Frame) (hg : GoodRun V width initState frames fs) :
+    Ctc.ValidRun V width fs (keepsOf V width initState frames) Ctc.beamInit :=
+  goodRun_validRun hV width hw frames fs initState Ctc.beamInit (wf_init V) rep_init hg
+
+/-- **C05_module** — the property for one batch element of `CTCPrefixSearch` (repaired code), every
+element length included (`own = []`: `T = 0`, or an element of length 0 inside a longer batch).
+`own` are the element's valid frames, `extra` the frames of the batch beyond its length (anything).
+If `own` is a good run for the specification frames `fs` (finite probabilities, extension scores =
+fused scores of each slot's prefix, legitimate `topk` answers), then for the element's result `r`
+(see `ElementOK`):
+
+* the recursion it is compared with is the standard prefix-beam recursion of width `width`
+  (`ValidRun`: legitimate best-`width` survivors at every frame);
+* every slot with a numeric probability `q` holds a blank-free prefix of that recursion's final map,
+  no longer than `T`, different from the prefix of every other numeric slot, and
+  `q` = the recursion's mass of the prefix, `0 ≤ q ≤` its true mass (sum over all alignments);
+* every prefix the recursion keeps is reported in some slot with the recursion's mass;
+* there are `width` probabilities, each a rational or `-inf` (never NaN / `+inf`), non-increasing in
+  torch's order, so the slots without a prefix (`-inf`) sit behind the real ones;
+* if nothing was pruned, `q` is exactly the true mass. -/
+theorem C05_module {V : Nat} (hV : 0 < V) (width : Nat) (hw : 0 < width) (own extra : List FrameIn)
+    (fs : List Ctc.Frame) (hg : GoodRun V width initState own fs) (hnn : ∀ f ∈ fs, f.Nonneg) :
+    ElementOK V width own.length fs (keepsOf V width initState own)
+      (search true V width own.length (own ++ extra)).1 := by
+  rw [C05_batch true V width hw own extra]
+  by_cases hne : own = []
+  · subst hne
+    have : fs = [] := by
+      cases fs with
+      | nil => rfl
+      | cons f fs => simp [GoodRun] at hg
+    subst this
+    exact elementOK_nil V width hw
+  · exact elementOK_cons hV width hw own fs hne hg hnn
+
+/-- **C05_array_sub**: what `CTCPrefixSearch` (repaired) reports, for every element length (also 0)
+and whatever the batch holds beyond the element's length: every slot `k` whose reported probability
+is a number `q` (not `-inf`) holds a blank-free prefix, different from the prefix of every other such
+slot, and `0 ≤ q ≤` the true mass of that prefix (the sum over all alignments collapsing to it);
 `q` equals the mass the prefix-beam recursion with the array code's survivors assigns to it. -/
-theorem C05_array_sub {V : Nat} (hV : 0 < V) (width : Nat) (frames : List FrameIn)
-    (fs : List Ctc.Frame) (hne : frames ≠ []) (hg : GoodRun V width initState frames fs)
-    (hnn : ∀ f ∈ fs, f.Nonneg) (hlen : fs.length = frames.length)
+theorem C05_array_sub {V : Nat} (hV : 0 < V) (width : Nat) (hw : 0 < width) (frames extra : List FrameIn)
+    (fs : List Ctc.Frame) (hg : GoodRun V width initState frames fs)
+    (hnn : ∀ f ∈ fs, f.Nonneg)
     (k : Nat) (hk : k < width) (q : Rat)
-    (hq : getX (search true V width frames.length frames).1.probs k = XR.fin q) :
-    let r := (search true V width frames.length frames).1
+    (hq : getX (search true V width frames.length (frames ++ extra)).1.probs k = XR.fin q) :
+    let r := (search true V width frames.length (frames ++ extra)).1
     let p := r.prefixes.getD k []
     q = (Ctc.beamRun V fs (keepsOf V width initState frames) Ctc.beamInit).total p ∧
     0 ≤ q ∧ q ≤ Ctc.mass V fs p ∧ (∀ x ∈ p, x < V) ∧
     (∀ k' q', k' < width → getX r.probs k' = XR.fin q' → r.prefixes.getD k' [] = p → k' = k) := by
   intro r p
-  obtain ⟨hwf, hrep⟩ := C05_refines hV width frames fs hg
-  have hsz := runAll_sized V width frames initState hne
-  obtain ⟨e1, e2⟩ := search_eq_runAll V width frames hne k hk
-  rw [e1] at hq
-  have hv : validB (runAll V width initState frames) k = true :=
-    valid_of_total_fin (by rw [hsz.1]; exact hk) hq
-  have htot := total_of_valid hwf hv
-  rw [htot] at hq
-  have hq' : q = nbq (runAll V width initState frames) k + bq (runAll V width initState frames) k :=
-    (XR.fin.inj hq).symm
-  have hget := hrep.1 (preOf (runAll V width initState frames) k)
-  rw [absGet_valid hwf hv] at hget
-  have hp : p = preOf (runAll V width initState frames) k := e2
-  have hkl : (keepsOf V width initState frames).length = fs.length := by
-    rw [hlen]
-    have : ∀ (fr : List FrameIn) (st : State), (keepsOf V width st fr).length = fr.length := by
-      intro fr
-      induction fr with
-      | nil => intro st; rfl
-      | cons a fr ih => intro st; simp [keepsOf, ih]
-    exact this frames initState
-  have hbeam : q = (Ctc.beamRun V fs (keepsOf V width initState frames) Ctc.beamInit).total p := by
-    unfold Ctc.Beam.total
-    rw [hp, hget, hq']
-  obtain ⟨h0, h1⟩ := Ctc.C05_sub V fs (keepsOf V width initState frames) hnn hkl p
-  refine ⟨hbeam, by rw [hbeam]; exact h0, by rw [hbeam]; exact h1, ?_, ?_⟩
-  · rw [hp]; exact hwf.tok k hv
-  · intro k' q' hk' hq2 hpk
-    obtain ⟨e1', e2'⟩ := search_eq_runAll V width frames hne k' hk'
-    rw [e1'] at hq2
-    have hv' : validB (runAll V width initState frames) k' = true :=
-      valid_of_total_fin (by rw [hsz.1]; exact hk') hq2
-    exact hwf.dist k' k hv' hv (by rw [← e2', hpk, hp])
+  obtain ⟨_, a, b, c, d, _, e⟩ := (C05_module hV width hw frames extra fs hg hnn).real k q hk hq
+  exact ⟨a, b, c, d, e⟩
 
 /-- **C05_array_exact_unpruned**: if, at every frame, every candidate prefix stayed in a real slot
 (the width never forced a prefix out), the reported probability of every real slot is exactly
-the true mass of its prefix. -/
-theorem C05_array_exact_unpruned {V : Nat} (hV : 0 < V) (width : Nat) (frames : List FrameIn)
-    (fs : List Ctc.Frame) (hne : frames ≠ []) (hg : GoodRun V width initState frames fs)
+the true mass of its prefix — again for every element length and any padding. -/
+theorem C05_array_exact_unpruned {V : Nat} (hV : 0 < V) (width : Nat) (hw : 0 < width)
+    (frames extra : List FrameIn) (fs : List Ctc.Frame) (hg : GoodRun V width initState frames fs)
+    (hnn : ∀ f ∈ fs, f.Nonneg)
     (hu : Ctc.Unpruned V fs (keepsOf V width initState frames) Ctc.beamInit)
     (k : Nat) (hk : k < width) (q : Rat)
-    (hq : getX (search true V width frames.length frames).1.probs k = XR.fin q) :
-    q = Ctc.mass V fs ((search true V width frames.length frames).1.prefixes.getD k []) := by
-  obtain ⟨hwf, hrep⟩ := C05_refines hV width frames fs hg
-  have hsz := runAll_sized V width frames initState hne
-  obtain ⟨e1, e2⟩ := search_eq_runAll V width frames hne k hk
-  rw [e1] at hq
-  have hv : validB (runAll V width initState frames) k = true :=
-    valid_of_total_fin (by rw [hsz.1]; exact hk) hq
-  rw [total_of_valid hwf hv] at hq
-  have hget := hrep.1 (preOf (runAll V width initState frames) k)
-  rw [absGet_valid hwf hv] at hget
-  rw [e2, ← Ctc.C05_exact_unpruned V fs _ hu]
-  unfold Ctc.Beam.total
-  rw [hget]
-  exact (XR.fin.inj hq).symm
+    (hq : getX (search true V width frames.length (frames ++ extra)).1.probs k = XR.fin q) :
+    q = Ctc.mass V fs ((search true V width frames.length (frames ++ extra)).1.prefixes.getD k []) :=
+  (C05_module hV width hw frames extra fs hg hnn).exact hu k q hk hq
 
-
-/-- **C05_array_len**: the prefix of every real slot is no longer than the number of frames. -/
-theorem C05_array_len {V : Nat} (hV : 0 < V) (width : Nat) (frames : List FrameIn)
-    (fs : List Ctc.Frame) (hg : GoodRun V width initState frames fs) (k : Nat)
-    (hv : validB (runAll V width initState frames) k = true) :
-    (preOf (runAll V width initState frames) k).length ≤ frames.length := by
-  obtain ⟨hwf, _⟩ := C05_refines hV width frames fs hg
-  have htm : ∀ (fr : List FrameIn) (st : State), (runAll V width st fr).tm1 = st.tm1 + fr.length := by
-    intro fr
-    induction fr with
-    | nil => intro st; rfl
-    | cons a fr ih =>
-      intro st
-      simp only [runAll, ih, List.length_cons]
-      have : (advance true V width a.ext a.nonext a.blank st a.sel).st.tm1 = st.tm1 + 1 := rfl
-      rw [this]; omega
-  rw [preOf_length hwf hv]
-  have := hwf.lens.1 k
-  rw [htm frames initState] at this
-  simpa [initState] using this
+/-- **C05_array_len**: the prefix of every reported real slot is no longer than the element's number of
+valid frames (`y_lens[n, k] <= logit_lens[n]`), whatever the batch length. -/
+theorem C05_array_len {V : Nat} (hV : 0 < V) (width : Nat) (hw : 0 < width) (frames extra : List FrameIn)
+    (fs : List Ctc.Frame) (hg : GoodRun V width initState frames fs) (hnn : ∀ f ∈ fs, f.Nonneg)
+    (k : Nat) (hk : k < width) (q : Rat)
+    (hq : getX (search true V width frames.length (frames ++ extra)).1.probs k = XR.fin q) :
+    ((search true V width frames.length (frames ++ extra)).1.prefixes.getD k []).length ≤ frames.length :=
+  ((C05_module hV width hw frames extra fs hg hnn).real k q hk hq).2.2.2.2.2.1
 
 /-! Non-vacuity of `GoodRun` (and hence of `C05_refines`, `C05_array_sub`). -/
 
@@ -515,5 +520,104 @@ theorem exFrames_good : GoodRun 1 2 initState exFrames [halfFrame, halfFrame] :=
 example : (search true 1 2 2 exFrames).1.probs = [.fin (3/4), .fin (1/4)] := by decide +kernel
 example : (search true 1 2 2 exFrames).1.prefixes = [[0], []] := by decide +kernel
 
+theorem halfFrame_nonneg : halfFrame.Nonneg := ⟨Ctc.half_nonneg, fun _ => Ctc.half_nonneg, fun _ _ => Ctc.half_nonneg⟩
+
+/-- `C05_module` on the example run, padded by one more frame of the batch: all clauses at once -/
+example : ElementOK 1 2 2 [halfFrame, halfFrame] (keepsOf 1 2 initState exFrames)
+    (search true 1 2 2 (exFrames ++ [{ ext := [[h2], [h2]], nonext := [h2], blank := h2, sel := none }])).1 :=
+  C05_module (by decide) 2 (by decide) exFrames _ _ exFrames_good (by
+    intro f hf
+    simp only [List.mem_cons, List.mem_nil_iff, or_false] at hf
+    rcases hf with rfl | rfl <;> exact halfFrame_nonneg)
+
+/-- ... and on an element of length 0 inside a batch of two frames (`GoodRun` of no frames is `True`) -/
+example : ElementOK 1 2 0 [] [] (search true 1 2 0 exFrames).1 :=
+  C05_module (by decide) 2 (by decide) [] exFrames [] trivial (by simp)
+
+
+
+/-! ## The module's language-model plumbing (shallow fusion)
+
+`Model/CtcFusion.lean`: per slot `k` the module calls the LM on column `k` (`y_prev[:, k]`, index
+`y_prev_lens[k]`, state `prev[k]`), fuses the row with the token probabilities (`fuse`), and after the
+step gives slot `j` the state `prev[src j]` if its prefix was not extended and `in_next[src j]` if it
+was (`extract_by_src` / `mix_by_mask`, `routeStates`).  `LMC` is the language model's state contract
+(same shape as C04's `LMOK`). -/
+
+/-- **C05_lm_states** — which state each slot gets: if before the call every real slot carries an LM
+state that is valid for its own prefix, then so does every real slot after the call (for any LM that
+meets the contract, any legitimate `topk` answer). -/
+theorem C05_lm_states {σ : Type} {V : Nat} (hV : 0 < V) (width : Nat) (mix : Option Rat) {lm : LM σ}
+    (dflt : σ) {spec : List Nat → Nat → Rat} {R : List Nat → σ → Prop} (hlm : LMC V lm spec R)
+    {st : State} {sts : List σ} (h : WF V st) (hst : StatesOK R dflt st sts)
+    {f : Ctc.Frame} {nonext : List XR} {blank : XR} (s : List Nat)
+    (hb : blank = XR.fin f.blank) (ht : ∀ v, v < V → getX nonext v = XR.fin (f.tok v))
+    (hx : ∀ q v, f.ext q v = fuseQ mix (spec q v) (f.tok v) f.blank)
+    (hk : isTopK (advance true V width (lmExt V mix lm dflt nonext blank st sts) nonext blank st (some s)).cand
+            (min width (st.nb.length * (V + 1))) s = true) :
+    StatesOK R dflt (advance true V width (lmExt V mix lm dflt nonext blank st sts) nonext blank st (some s)).st
+      (routeStates dflt sts (lmInNext lm dflt st sts)
+        (advance true V width (lmExt V mix lm dflt nonext blank st sts) nonext blank st (some s)).src
+        (advance true V width (lmExt V mix lm dflt nonext blank st sts) nonext blank st (some s)).isNon) :=
+  lm_states_step hV width mix dflt hlm h hst s hb ht hx hk
+
+/-- **C05_lm_plumbing** — the hypothesis "`ext[k]` is the fused score of slot `k`'s prefix" of
+`C05_refines` / `C05_module`, discharged: for every language model meeting the state contract, started
+in a state valid for the empty history (`update_input`'s result or the caller's initial state), the
+frames the module hands to `ctc_prefix_search_advance` form a `GoodRun` for the specification frames
+whose extension score after prefix `q` is `fuse (spec q v) (tok v) blank`. -/
+theorem C05_lm_plumbing {σ : Type} {V : Nat} (hV : 0 < V) (width : Nat) (mix : Option Rat) {lm : LM σ}
+    (dflt st0 : σ) {spec : List Nat → Nat → Rat} {R : List Nat → σ → Prop} (hlm : LMC V lm spec R)
+    (h0 : R [] st0) (ins : List AcIn) (fs : List Ctc.Frame)
+    (hg : LMGood V width mix lm dflt spec (initState, [st0]) ins fs) :
+    GoodRun V width initState (lmFrames V width mix lm dflt (initState, [st0]) ins) fs := by
+  refine lm_goodRun hV width mix dflt hlm ins fs (initState, [st0]) (wf_init V) ?_ hg
+  intro k hk
+  rw [(validB_init k).1 hk]
+  simpa [preOf, initState, getN] using h0
+
+/-- **C05_module_lm** — `C05_module` for the module with a fused language model: all clauses of the
+property for one batch element, the only assumptions being the LM's state contract, finite token /
+blank probabilities, legitimate `topk` answers. -/
+theorem C05_module_lm {σ : Type} {V : Nat} (hV : 0 < V) (width : Nat) (hw : 0 < width) (mix : Option Rat)
+    {lm : LM σ} (dflt st0 : σ) {spec : List Nat → Nat → Rat} {R : List Nat → σ → Prop}
+    (hlm : LMC V lm spec R) (h0 : R [] st0) (ins : List AcIn) (extra : List FrameIn) (fs : List Ctc.Frame)
+    (hg : LMGood V width mix lm dflt spec (initState, [st0]) ins fs) (hnn : ∀ f ∈ fs, f.Nonneg) :
+    ElementOK V width (lmFrames V width mix lm dflt (initState, [st0]) ins).length fs
+      (keepsOf V width initState (lmFrames V width mix lm dflt (initState, [st0]) ins))
+      (search true V width (lmFrames V width mix lm dflt (initState, [st0]) ins).length
+        (lmFrames V width mix lm dflt (initState, [st0]) ins ++ extra)).1 :=
+  C05_module hV width hw _ extra fs (C05_lm_plumbing hV width mix dflt st0 hlm h0 ins fs hg) hnn
+
+/-! Non-vacuity: a stateful LM (its state is the consumed history) whose factor is 1/2 after the empty
+history and 1/4 afterwards; two frames over one token, width 2, shallow fusion. -/
+def exF : List Nat → Nat → Rat := fun h _ => if h = [] then 1/2 else 1/4
+def exIns : List AcIn := [⟨[h2], h2, some [1, 0]⟩, ⟨[h2], h2, some [3, 2]⟩]
+def exLmFrame : Ctc.Frame :=
+  { blank := 1/2, tok := fun _ => 1/2, ext := fun q v => fuseQ none (exF q v) (1/2) (1/2) }
+
+example : LMC 1 (histLM 1 exF) exF (fun h st => st = h.dropLast) := histLM_ok 1 exF
+
+theorem exIns_good : LMGood 1 2 none (histLM 1 exF) [] exF (initState, [[]]) exIns [exLmFrame, exLmFrame] := by
+  refine ⟨[1, 0], rfl, rfl, ?_, fun _ _ => rfl, ?_, by decide +kernel,
+    [3, 2], rfl, rfl, ?_, fun _ _ => rfl, ?_, by decide +kernel, trivial⟩
+  · intro v hv
+    match v, hv with
+    | 0, _ => rfl
+  · intro x hx
+    simp only [List.mem_singleton] at hx
+    subst hx; rfl
+  · intro v hv
+    match v, hv with
+    | 0, _ => rfl
+  · intro x hx
+    simp only [List.mem_singleton] at hx
+    subst hx; rfl
+
+/-- the fused run: `[0]` = 1/4·1/2 (stay) + 1/2·1/4 (extension of `[]`, merged) + 1/4·1/2 (blank) -/
+example : (search true 1 2 2 (lmFrames 1 2 none (histLM 1 exF) [] (initState, [[]]) exIns)).1.prefixes
+    = [[0], []] := by decide +kernel
+example : (search true 1 2 2 (lmFrames 1 2 none (histLM 1 exF) [] (initState, [[]]) exIns)).1.probs
+    = [.fin (3/8), .fin (1/4)] := by decide +kernel
 
 end PdtVerif.CtcPrefix
